@@ -142,6 +142,20 @@ def run_impl(case, run):
             out['tasksBool'] = bool(res)
             if snap != out['tasks'] or dump_classify(first.classify, fps) != snap:
                 again.append('tasks')
+            from valjean.cosette.task import TaskStatus
+            probe(res, 'tasks', TaskStatus, out['tasks'], out['tasksBool'])
+
+        def probe(res, which, statuses, dumped, verdict):
+            # asking the summary about every status - those nobody ended with included - changes neither the summary
+            # nor its verdict
+            for status in statuses:
+                try:
+                    res.classify[status]
+                except KeyError:
+                    pass
+                res.classify.get(status)
+            if dump_classify(res.classify, fps) != dumped or bool(res) != verdict:
+                again.append(which + ' (after reading the classification by status)')
 
         def tests():
             test = stats.TestStatsTests(name='s', task_results=task_results)
@@ -152,6 +166,7 @@ def run_impl(case, run):
             out['testsBool'] = bool(res)
             if snap != out['tests'] or dump_classify(first.classify, fps) != snap:
                 again.append('tests')
+            probe(res, 'tests', stats.TestOutcome, out['tests'], out['testsBool'])
 
         def bylabels():
             if case['byLabels'] is None:
